@@ -42,7 +42,8 @@ IsZero(a) == \A i \in IdxH : a[i] = 0
 AllEven(a) == \A i \in IdxH : a[i] % 2 = 0
 Halve(a) == TLCEval([i \in IdxH |-> a[i] \div 2])
 MaxAbs(a) == LET ab(x) == IF x < 0 THEN -x ELSE x
-                 S[j \in 0..H] == IF j = 0 THEN 0 ELSE IF ab(a[j]) > S[j-1] THEN ab(a[j]) ELSE S[j-1]
+                 \* bind S[j-1] once: referencing it twice made the recursion cost 2^H evaluations
+                 S[j \in 0..H] == IF j = 0 THEN 0 ELSE LET p == S[j-1]  v == ab(a[j]) IN IF v > p THEN v ELSE p
              IN S[H]
 \* 2cos(theta/2), 2sin(theta/2), e^{i theta/2}, e^{i theta}, e^{-i theta/2} at theta = a*4pi/N
 C2(a) == Add(Zeta(a), Zeta(-a))
